@@ -331,6 +331,10 @@ def check_out_of_range(ctx):
     for i in (Instant.min_value, Instant.from_utc(0, 12, 31, 23, 59, 59), gen.ns_inst((1 - UNIX) * DAY - 1)):
         must_raise("Instant.to_datetime_utc", i.to_datetime_utc, repr(i))
     must_return("Instant.to_datetime_utc", Instant.from_utc(1, 1, 1, 0, 0).to_datetime_utc, dt.datetime(1, 1, 1, tzinfo=dt.timezone.utc), "0001-01-01T00:00Z")
+    for off_h, us_back in ((-1, 0), (-18, 0), (-0.0167, 0), (-1, 3599 * 10**6), (-5, 4 * 3600 * 10**6 + 1)):
+        aw = (dt.datetime.max - dt.timedelta(microseconds=us_back)).replace(tzinfo=dt.timezone(dt.timedelta(hours=off_h)))
+        if aw.utcoffset() is not None and (dt.datetime.max - aw.replace(tzinfo=None)) < -aw.utcoffset():
+            must_raise("Instant.from_aware_datetime (instant after 9999-12-31T23:59:59.999999999Z)", lambda aw=aw: Instant.from_aware_datetime(aw), repr(aw))
     must_return("Instant.to_datetime_utc", Instant.max_value.to_datetime_utc, dt.datetime.max.replace(tzinfo=dt.timezone.utc), "Instant.max_value")
     must_return("OffsetDateTime.to_aware_datetime", LocalDateTime(1, 1, 1, 0, 0).with_offset(Offset.from_hours(5)).to_aware_datetime,
                 dt.datetime(1, 1, 1, tzinfo=dt.timezone(dt.timedelta(hours=5))), "0001-01-01T00:00+05")
